@@ -27,6 +27,7 @@ for f in selftest/refactors/*.diff; do
   case $n in
     R5*) props="C01 C06 C08 C10 C12" ;;
     R1*|R2*) props="C01 C05 C11 C04" ;;
+    R8*) props="C05 C10 C12" ;;
     *) props="C01 C02 C03" ;;
   esac
   run "$n" "$f" 0 $props
